@@ -6,7 +6,7 @@ package redis
 
 //@ func hash
 //@   arith bv
-//@   properties C11
+//@   properties C11 C18
 //@   nopanic
 //@   ensures slot_spec: result == digest.SpecHashSlot(key)
 //@   loop 1:
